@@ -494,6 +494,12 @@ func runC18(t *testing.T, cases []map[string]interface{}, ev *vEvents) {
 		case "oidc_authorize_unauth":
 			pages = append(pages, w.Do(vReq{Method: "GET", Path: idpOpenIDCAuthorizationPath, Headers: htmlH,
 				Form: url.Values{"client_id": {payload}, "state": {payload}}}))
+			// ... and the payload inside the parts of a redirect_uri (a URL parser lets markup characters through in a host name)
+			hostish := strings.NewReplacer("/", "", "?", "", "#", "", "@", "", "\\", "", " ", "").Replace(payload)
+			for _, ru := range []string{payload, "https://rp.example.com" + hostish, "https://" + hostish + ".example.com:8443/cb", "https://rp.example.com/cb/" + payload} {
+				pages = append(pages, w.Do(vReq{Method: "GET", Path: idpOpenIDCAuthorizationPath, Headers: htmlH,
+					Form: url.Values{"client_id": {vClientA}, "redirect_uri": {ru}, "response_type": {"code"}, "scope": {"openid"}, "state": {"s"}}}))
+			}
 		case "showtoken_unauth":
 			pages = append(pages, w.Do(vReq{Method: "GET", Path: "/showAuthToken", Headers: htmlH, Form: url.Values{"x": {payload}}}))
 			pages = append(pages, w.Do(vReq{Method: "GET", Path: "/sendAuthDocument", Headers: htmlH, Form: url.Values{"token": {payload}, "port": {payload}}}))
